@@ -106,7 +106,9 @@ class Simulator:
             loopcount += 1
             anyChange = False
             
-            if (loopcount > 1000):
+            # an acyclic netlist needs at most one pass per leaf (a chain instantiated
+            # in reverse order), only a combinational loop keeps swapping forever
+            if (loopcount > max(1000, 2 * len(self.propagatables) + 2)):
                 raise Exception('Excessive loop count in topological count')
                 
             for i in range(len(self.propagatables)):
